@@ -1,6 +1,7 @@
 //! C07 — configured peer authentication is enforced (verdict-cache part).
 //! Engine E2: all histories up to length 4 (thorough 5) over {check(u1,p1), check(u1,p2), check(u2,p1),
 //! flip the backend's verdict for (u1,p1), wait 0.4 s, wait 1.3 s, runtime busy for 1.3 s} against the real AuthData (external command =
+//! plus the refresh family (accept, revoke, then all sequences over {check, wait 0.4, wait 0.7}: a verdict in constant use still expires);
 //! a shell script that consults a verdict file and logs every invocation; cache.timeout = 1 s) on the real clock.
 //! Reference: a map of (user, pass) -> (verdict, time). Histories whose measured ages come within 150 ms of the
 //! timeout are discarded, never judged. SOCKS negotiation and the TLS grids are the real-socket part.
@@ -13,7 +14,9 @@ use std::time::{Duration, Instant};
 
 /// "busy1.3": the runtime thread is kept busy for 1.3 s (no task can run: the schedule in which the cache's own
 /// clean-up has not been scheduled yet although the deadline has passed); "wait1.3": it is idle for 1.3 s.
-const EVENTS: [&str; 7] = ["check(u1,p1)", "check(u1,p2)", "check(u2,p1)", "flip(u1,p1)", "wait0.4", "wait1.3", "busy1.3"];
+const EVENTS: [&str; 8] = ["check(u1,p1)", "check(u1,p2)", "check(u2,p1)", "flip(u1,p1)", "wait0.4", "wait1.3", "busy1.3", "wait0.7"];
+/// the alphabet of the exhaustive histories; "wait0.7" only occurs in the refresh family
+const MAIN_EVENTS: usize = 7;
 
 struct Outcome {
     hist: Vec<usize>,
@@ -104,6 +107,7 @@ async fn run_history(dir: String, idx: usize, hist: Vec<usize>) -> Outcome {
             }
             4 => tokio::time::sleep(Duration::from_millis(400)).await,
             5 => tokio::time::sleep(Duration::from_millis(1300)).await,
+            7 => tokio::time::sleep(Duration::from_millis(700)).await,
             _ => std::thread::sleep(Duration::from_millis(1300)),
         }
     }
@@ -216,7 +220,7 @@ fn check() {
     for _ in 0..maxlen {
         let mut next = vec![];
         for h in &cur {
-            for e in 0..EVENTS.len() {
+            for e in 0..MAIN_EVENTS {
                 let mut n = h.clone();
                 n.push(e);
                 next.push(n);
@@ -225,6 +229,18 @@ fn check() {
         // keep histories that end in a check and contain at least two checks
         hists.extend(next.iter().filter(|h| *h.last().unwrap() < 3 && h.iter().filter(|&&e| e < 3).count() >= 2).cloned());
         cur = next;
+    }
+    // refresh family: a verdict that is used again and again inside its validity must still expire when its time is up
+    // (counted from when the backend gave it, not from its last use): accept, revoke in the backend, then every
+    // sequence of length 4 (thorough 5) over {check(u1,p1), wait 0.4, wait 0.7} that ends in a check
+    {
+        let alpha = [0usize, 4, 7];
+        let flen = if chk.thorough() { 5 } else { 4 };
+        let mut cur: Vec<Vec<usize>> = vec![vec![0, 3]];
+        for _ in 0..flen {
+            cur = cur.iter().flat_map(|h| alpha.iter().map(move |&e| { let mut n = h.clone(); n.push(e); n })).collect();
+        }
+        hists.extend(cur.into_iter().filter(|h| *h.last().unwrap() == 0));
     }
     let dir = format!("{}/target/c07-scratch-{}", VERIF_DIR, std::process::id());
     let _ = std::fs::remove_dir_all(&dir);
